@@ -11,6 +11,7 @@ package main
 import (
 	"fmt"
 	"os"
+	"runtime"
 	"runtime/debug"
 	"strings"
 
@@ -43,6 +44,10 @@ func inconclusive(msg string) {
 
 func main() {
 	debug.SetMemoryLimit(2 << 30)
+	// everything runs on one goroutine; one P also pins per-P caches (sync.Pool
+	// free lists) that a library might use, so overlapping copies meet them
+	// the same way in every run
+	runtime.GOMAXPROCS(1)
 	rep := vlib.NewReporter("C18")
 	thorough := rep.Tier == "thorough"
 
@@ -51,7 +56,7 @@ func main() {
 		if err := common.LoadReplay(p, &k); err != nil {
 			inconclusive("cannot load replay: " + err.Error())
 		}
-		if k.Adapter == "" || (!isNP(k.Src) && specByName[k.Src] == nil) || (k.DstFill != "" && specByName[k.DstFill] == nil) {
+		if k.Adapter == "" || (!isNP(k.Src) && specByName[k.Src] == nil) || (k.DstFill != "" && specByName[k.DstFill] == nil) || (k.Hook != "" && specByName[k.Inner] == nil) {
 			inconclusive("replay file does not describe a C18 case")
 		}
 		o := runCase(k)
@@ -130,7 +135,7 @@ func main() {
 	for _, fp := range aggOrder {
 		a := agg[fp]
 		what := a.what
-		if a.n > 1 {
+		if a.n > 1 && a.first.Hook == "" { // (the number of overlap cases that show a corruption may depend on map order inside the library)
 			what += fmt.Sprintf(" [%d cases of the grammar fail in this class; the replay is the simplest]", a.n)
 		}
 		if a.telling != "" && !telling(finding{What: a.what}) {
@@ -147,8 +152,10 @@ func main() {
 		"evaluations":         evals,
 		"distinct_nontrivial": len(distinct),
 		"rule": "every (adapter, operation, source message, source representation, destination type / representation / previous content) of the grammar is run through the real adapter. " +
+			"Overlapping copies: for every adapter, a second copy of another message of the same type (4 generated/dynamic pairings) runs inside a callback of a wrapper message type placed as " +
+			"destination (its Reset) or source (its first ProtoReflect) of the first; when the first reports success both results must equal their sources. " +
 			"A case is non-trivial when the adapter operation was actually invoked and either a refusal was due (different type, non-proto pointer), or the copy went through the " +
-			"disjointness test with at least one in-place mutation applied, or a clause failed; distinct by all case parameters.",
+			"disjointness test with at least one in-place mutation applied, or (overlap cases) the outer copy succeeded and the inner copy really ran inside it, or a clause failed; distinct by all case parameters.",
 		"samples":             samples,
 		"exhaustive":          true,
 		"pool_messages":       len(pool),
